@@ -136,8 +136,30 @@ def r2(prog, ev, rep, slice_fn, index_fn):
             if x.get("k") == "Match" and sum(1 for a in x["arms"] if "guard" in a) >= 2:
                 disp = (fam, x)
     if disp is None:
-        # if/else-if chain form
-        rep.unrecognised("C11-R2", "%s|dispatch" % slice_fn, where, "sign dispatch on the step not found as a guarded match")
+        # if / else-if chain form: if step > 0 {..} else if step < 0 {..} else { vec![] }  (either order of the two tests)
+        ok_chain = False
+        try:
+            from vflib.report import Report
+            h = find_handlers(prog, ev, Report("tmp"))
+            names = {}
+            for slot, nm in ((0, "start"), (1, "end"), (2, "step")):
+                i = h[2][slot]
+                names[Tm("param", (i, c08._pname(prog, slice_fn, i)))] = nm
+            mdl = rfc_model()
+            want = {repr(mdl["pos"]["guard"]), repr(mdl["neg"]["guard"])}
+            from rules.c04 import expand_closures
+            for x in subterms(expand_closures(ev, ev.summary(slice_fn))):
+                if x.k == "if" and x.a[2].k == "if":
+                    g1, g2 = norm(prog, x.a[0], names, None), norm(prog, x.a[2].a[0], names, None)
+                    last = x.a[2].a[2]
+                    if {repr(g1), repr(g2)} == want and last.k == "call" and last.a == ("<vec>",):
+                        ok_chain = True
+        except Exception:
+            ok_chain = False
+        if ok_chain:
+            rep.ok("C11-R2", "%s|step-zero" % slice_fn, where, "if step > 0 | else if step < 0 | else vec![]")
+        else:
+            rep.unrecognised("C11-R2", "%s|dispatch" % slice_fn, where, "sign dispatch on the step not found as a guarded match or an if / else-if chain ending in an empty vector")
     else:
         fam, m = disp
         arms = m["arms"]
@@ -583,6 +605,14 @@ def _guard_of(prog, pc, names, arr):
     for c in pc:
         if c[0] == "arm" and c[3] is not None:
             guard = norm(prog, c[3], names, arr)
+    if guard is None:
+        # an if / else-if chain instead of a guarded match: the taken test that is a sign test of the step
+        mdl = rfc_model()
+        for c in pc:
+            if c[0] == "if" and c[2] is True:
+                n = norm(prog, c[1], names, arr)
+                if n in (mdl["pos"]["guard"], mdl["neg"]["guard"]):
+                    guard = n
     return guard
 
 
@@ -593,7 +623,11 @@ def _extra_conds(pc, names, skip=None):
     for c in pc:
         if c[0] != "if" or c[1] is skip:
             continue
-        if any((y in names) or (y.k == "call" and y.a[0].rsplit("::", 1)[-1] == "len") or (y.k == "call" and y.a[0].rsplit("::", 1)[-1] == "is_empty") for y in subterms(c[1])):
+        ment = {names[y] for y in subterms(c[1]) if y in names}
+        lens = any(y.k == "call" and y.a[0].rsplit("::", 1)[-1] in ("len", "is_empty") for y in subterms(c[1]))
+        if ment == {"step"} and not lens:
+            continue        # a sign test of the step belongs to the dispatch (if / else-if chains leave the failed test on the path)
+        if ment or lens:
             out.append(c[1])
     return out
 
@@ -936,6 +970,8 @@ def index_region_check(prog, ev, rep, index_fn, index_args, int_bounds):
             sites.append((s, True))
     if not sites:
         raise pwl.Undecided("no element fetch (indexing or get) found in the handler")
+    if any(s_.get("pc_incomplete") for s_, _ in sites):
+        raise pwl.Undecided("an early exit inside a nested block precedes the element fetch: the guards it establishes could not be carried along")
     lo, hi = int_bounds
     domain = [{"len": 1}, {"len": -1, 1: 2 ** 47}, {"i": 1, 1: -lo}, {"i": -1, 1: hi}]
     order = ["i", "len"]
@@ -953,19 +989,26 @@ def index_region_check(prog, ev, rep, index_fn, index_args, int_bounds):
             raw = raw.a[1]
         if raw.k == "try":
             raw = Tm("proj", (raw.a[0], "Option::Some.0"))
-        if raw.k == "proj" and raw.a[1] == "Option::Some.0" and raw.a[0].k in ("if", "match"):
-            def walk(t, extra, out):
+        optional = raw.k == "proj" and raw.a[1] == "Option::Some.0" and raw.a[0].k in ("if", "match", "assume")
+        if optional or raw.k in ("if", "assume"):
+            def walk(t, extra, out, optional=optional):
+                while t.k == "cast":
+                    t = t.a[1]
                 if t.k == "if":
                     walk(t.a[1], extra + (("if", t.a[0], True),), out)
                     walk(t.a[2], extra + (("if", t.a[0], False),), out)
-                elif t.k == "adt" and t.a[1] == "Some":
+                elif t.k == "assume":
+                    walk(t.a[0], extra + tuple(t.a[1]), out)
+                elif optional and t.k == "adt" and t.a[1] == "Some":
                     out.append((extra, t.a[2][0][1]))
-                elif t.k == "adt" and t.a[1] == "None":
+                elif optional and t.k == "adt" and t.a[1] == "None":
                     pass
+                elif not optional:
+                    out.append((extra, t))
                 else:
                     raise pwl.Undecided("index computed by `%s`" % str(t)[:80])
             out = []
-            walk(raw.a[0], (), out)
+            walk(raw.a[0] if optional else raw, (), out)
             for extra, v in out:
                 vsites.append((s, filtered, tuple(s["pc"]) + extra, v))
         else:
